@@ -170,8 +170,33 @@ def _pool_init(fn_module, fn_name, initargs, pin=True):
     _WORKER_FN = getattr(mod, fn_name)
 
 
+JOB_CRASHES = []      # filled (in the parent) in tolerant mode: short descriptions of work items that crashed
+
+
+class _Crash(object):
+    def __init__(self, text):
+        self.text = text
+
+
 def _pool_call(arg):
-    return _WORKER_FN(arg)
+    if not os.environ.get("VERIF_TOLERATE_CRASHES"):
+        return _WORKER_FN(arg)
+    try:
+        return _WORKER_FN(arg)
+    except BaseException as e:  # noqa
+        import traceback as _tb
+        return _Crash("%s: %s | item %r | %s" % (type(e).__name__, str(e)[:200], arg if len(repr(arg)) < 200 else repr(arg)[:200],
+                                             " <- ".join("%s:%d" % (f.filename.split("/")[-1], f.lineno) for f in _tb.extract_tb(e.__traceback__)[-3:])))
+
+
+def _drop_crashes(results):
+    out = []
+    for r in results:
+        if isinstance(r, _Crash):
+            JOB_CRASHES.append(r.text)
+        else:
+            out.append(r)
+    return out
 
 
 def ncpu():
@@ -215,7 +240,7 @@ def pmap(fn_module, fn_name, items, initargs=(), jobs=None, chunksize=1):
     jobs = jobs or ncpu()
     if jobs <= 1 or len(items) <= 1:
         _pool_init(fn_module, fn_name, initargs, pin=False)
-        return [_pool_call(a) for a in items]
+        return _drop_crashes([_pool_call(a) for a in items])
     import concurrent.futures as cf
     ctx = multiprocessing.get_context("fork")
     # ProcessPoolExecutor (unlike multiprocessing.Pool) notices a worker that died
@@ -232,7 +257,7 @@ def pmap(fn_module, fn_name, items, initargs=(), jobs=None, chunksize=1):
                     t0 = time.time()
                     out.append(_next_with_timeout(it, limit))
             except StopIteration:
-                return out
+                return _drop_crashes(out)
         except cf.TimeoutError:
             for p in list(getattr(pool, "_processes", {}).values()):
                 try:
